@@ -78,6 +78,11 @@ Fixpoint own_check (K : ctx) (i : instr) (G : ost) {struct i} : option (option o
     if writable d G && mem a (o_own G) && mem (root pb) (o_own G) && negb (Nat.eqb d a) && negb (Nat.eqb (root pb) a)
     then let S1 := take a G in Some (Some (give d (mkO (o_own S1) (ins a (o_dead S1)))))
     else None
+  | IGrow d a n =>
+    if writable d G && mem a (o_own G) && negb (Nat.eqb d a)
+    then let G1 := take a G in Some (Some (give d (mkO (o_own G1) (ins a (o_dead G1)))))
+    else None
+  | IOverwritePart _ _ _ => None          (* overwriting an owner loses what it owned: never accepted *)
   | IAbsorb d s => if mem d (o_own G) && mem s (o_own G) && negb (Nat.eqb d s) then Some (Some (take s G)) else None
   | IAbsorbCopy d p => if mem d (o_own G) && mem (root p) (o_own G) then Some (Some G) else None
   | IAssignPart s k src =>
